@@ -138,6 +138,7 @@ type Sched struct {
 	frontier   func(key [3]uint64) bool // called at the first choice point after the prefix; true = prune
 	Pruned     bool
 	goDaemon   bool
+	atEnd      []func(bool)
 }
 
 type abortSentinel struct{}
@@ -664,4 +665,17 @@ func Settle() {
 		return true
 	}})
 	s.event(me, OpJoin, nil, "settle", false)
+}
+
+// AtEnd registers f to run after the execution has ended and every thread has
+// been unwound (also when the execution was cut short by pruning or an abort),
+// with no exploration active. Harnesses use it to release real resources
+// (file mappings, RocksDB handles) that an unfinished execution left open.
+// f is told whether the execution ran to its normal end (all ordinary threads
+// finished) or was cut (pruned, deadlocked, panicked): after a cut, threads
+// were abandoned mid-operation and may still "hold" native resources.
+func AtEnd(f func(normalEnd bool)) {
+	if s := active; s != nil {
+		s.atEnd = append(s.atEnd, f)
+	}
 }
